@@ -305,9 +305,12 @@ func (t *hTool) InvokableRun(ctx context.Context, args string, opts ...tool.Opti
 // sTool is a streamable-only tool whose output stream panics in its convert function:
 // inside ToolsNode.Stream that function runs in the goroutine that forwards the tool's
 // stream into the merged output (schema/stream.go toStream).
-type sTool struct{ hTool }
+type sTool struct{ h hTool }
 
-func (t *sTool) StreamableRun(ctx context.Context, args string, opts ...tool.Option) (*schema.StreamReader[string], error) {
+func (s *sTool) Info(ctx context.Context) (*schema.ToolInfo, error) { return s.h.Info(ctx) }
+
+func (s *sTool) StreamableRun(ctx context.Context, args string, opts ...tool.Option) (*schema.StreamReader[string], error) {
+	t := &s.h
 	t.e.rec(t.path, "tool-convpanic")
 	src := schema.StreamReaderFromArray([]string{"r"})
 	return schema.StreamReaderWithConvert(src, func(s string) (string, error) {
